@@ -89,14 +89,27 @@ def Ch11.encode (sync chid dtv seq flag dt rtc : Nat) (ptp : Option (Nat × Nat)
 
 /-! ### deprecated namespace (C19) -/
 
-/-- the IRIG106 module each module of the deprecated `AcraNetwork.Chapter10` package must re-export -/
+/-- the IRIG106 module each module of the deprecated `AcraNetwork.Chapter10` package must re-export
+    (a finite table so that statements about it are decidable by evaluation) -/
+def Namespace.targets : List (String × String) := [
+  ("AcraNetwork.Chapter10", "AcraNetwork.IRIG106.Chapter11"),
+  ("AcraNetwork.Chapter10.Chapter10", "AcraNetwork.IRIG106.Chapter11"),
+  ("AcraNetwork.Chapter10.Chapter10UDP", "AcraNetwork.IRIG106.Chapter10.Chapter10UDP"),
+  ("AcraNetwork.Chapter10.ARINC429", "AcraNetwork.IRIG106.Chapter11.ARINC429"),
+  ("AcraNetwork.Chapter10.Analog", "AcraNetwork.IRIG106.Chapter11.Analog"),
+  ("AcraNetwork.Chapter10.CAN", "AcraNetwork.IRIG106.Chapter11.CAN"),
+  ("AcraNetwork.Chapter10.ComputerData", "AcraNetwork.IRIG106.Chapter11.ComputerData"),
+  ("AcraNetwork.Chapter10.MILSTD1553", "AcraNetwork.IRIG106.Chapter11.MILSTD1553"),
+  ("AcraNetwork.Chapter10.PCM", "AcraNetwork.IRIG106.Chapter11.PCM"),
+  ("AcraNetwork.Chapter10.TimeDataFormat", "AcraNetwork.IRIG106.Chapter11.TimeDataFormat"),
+  ("AcraNetwork.Chapter10.UART", "AcraNetwork.IRIG106.Chapter11.UART"),
+  ("AcraNetwork.Chapter10.Video", "AcraNetwork.IRIG106.Chapter11.Video")]
+
 def Namespace.expectedTarget (legacy : String) : Option String :=
-  let pre := "AcraNetwork.Chapter10"
-  if legacy = pre then some "AcraNetwork.IRIG106.Chapter11"
-  else if legacy = pre ++ ".Chapter10" then some "AcraNetwork.IRIG106.Chapter11"
-  else if legacy = pre ++ ".Chapter10UDP" then some "AcraNetwork.IRIG106.Chapter10.Chapter10UDP"
-  else if legacy.startsWith (pre ++ ".") then
-    some ("AcraNetwork.IRIG106.Chapter11." ++ (legacy.drop (pre.length + 1)).toString)
-  else none
+  (Namespace.targets.find? (fun p => p.1 == legacy)).map (·.2)
+
+/-- names a legacy module may bind besides the re-exports: the `warnings` module (needed for the
+    deprecation notice) -/
+def Namespace.allowedExtra : List String := ["warnings"]
 
 end Acra.Spec
